@@ -88,7 +88,8 @@ def gen(rng, i, tier):
         else:
             keys = sorted(set(list(a) + MANDATORY[kind]))
             key = c11.cyc("c13key" + kind, keys)
-            bads = ["text", True, [1.0, 2.0], {"a": 1.0}, 7]
+            # (False == 0 == 0.0 in Python: wrong-typed values that compare equal to a default must be rejected too)
+            bads = ["text", True, [1.0, 2.0], {"a": 1.0}, 7, False, 0, 0.0, "", 1]
             case["bad_key"] = key
             case["bad_value"] = c11.cyc("c13bad" + kind + key, bads)
     return case
